@@ -15,13 +15,13 @@ import (
 
 // defect describes how the credentials of a request are wrong.
 type defect struct {
-	name                     string
-	user, realm, nonce       string // "" = as the client would; "-" = attribute absent
-	pass                     string // "" = the presenting identity's password
-	mi                       string // ok | none | wrongkey | flip | trunc | otheruser
-	bit, trunc               int
-	wantChallenge            int // 401 / 438 when the property names the answer, else 0
-	valid                    bool
+	name               string
+	user, realm, nonce string // "" = as the client would; "-" = attribute absent
+	pass               string // "" = the presenting identity's password
+	mi                 string // ok | none | wrongkey | flip | trunc | otheruser
+	bit, trunc         int
+	wantChallenge      int // 401 / 438 when the property names the answer, else 0
+	valid              bool
 }
 
 func defects(validNonce string) []defect {
